@@ -10,7 +10,7 @@
 From CB Require Import Spec Unstable.
 From Coq Require Import Permutation.
 From CBP Require Import Step RefDefs C02Lemmas Arith AbsLemmas AllOps FaultDefs FaultPrims FaultDropA FaultDropB FaultUser
-     Iters DrainP ExtendIo CmpHash Ctors PhysMoves MoreOps UnstableEq Access Views RefTruncate FillExtend FaultFrame SpecCorollaries.
+     Iters DrainP ExtendIo CmpHash Ctors PhysMoves MoreOps UnstableEq Access Views RefTruncate FillExtend FaultFrame SpecCorollaries ValueCorollaries FaultGeneric FaultHistory.
 
 
 Theorem C13_eq :
@@ -62,3 +62,45 @@ Theorem C13_into_iter_debug :
   forall pre, refines_op (OIntoIterDebug pre).
 Proof. exact (fun pre => exec_refines (OIntoIterDebug pre)). Qed.
 Print Assumptions C13_into_iter_debug.
+
+Theorem C13_eq_iff_equal_sequences :
+  forall a b w r a' w',
+  WF a -> WF b -> fault w = None ->
+  exec (OEq b) a w = (Ok (OutBool r), a', w') ->
+  (r = true <-> vals (abs a) = vals (abs b)) /\ abs a' = abs a.
+Proof. exact (exec_eq_iff). Qed.
+Print Assumptions C13_eq_iff_equal_sequences.
+
+Theorem C13_eq_slice_iff :
+  forall form xs a w r a' w',
+  WF a -> zlen xs < W -> fault w = None ->
+  exec (OEqSlice form xs) a w = (Ok (OutBool r), a', w') ->
+  (r = true <-> vals (abs a) = vals xs) /\ abs a' = abs a.
+Proof. exact (exec_eq_slice_iff). Qed.
+Print Assumptions C13_eq_slice_iff.
+
+Theorem C13_ordering_lexicographic :
+  forall a b w r a' w',
+  WF a -> WF b -> fault w = None ->
+  exec (OPartialCmp b) a w = (Ok (OutOrd r), a', w') ->
+  r = Some (lex_compare (vals (abs a)) (vals (abs b))) /\ abs a' = abs a.
+Proof. exact (exec_cmp_lex). Qed.
+Print Assumptions C13_ordering_lexicographic.
+
+Theorem C13_equal_contents_hash_equally :
+  forall a b w va a' wa vb b' wb,
+  WF a -> WF b -> fault w = None -> abs a = abs b ->
+  exec OHash a w = (Ok va, a', wa) -> exec OHash b w = (Ok vb, b', wb) ->
+  log wa = log wb.
+Proof. exact (exec_hash_same). Qed.
+Print Assumptions C13_equal_contents_hash_equally.
+
+Theorem C13_observers_layout_free :
+  forall o a1 a2 w,
+  observer o -> WF a1 -> WF a2 -> cap a1 = cap a2 -> abs a1 = abs a2 ->
+  fault w = None -> op_ok a1 o ->
+  fst (fst (exec o a1 w)) = fst (fst (exec o a2 w)) /\
+  snd (exec o a1 w) = snd (exec o a2 w) /\
+  exists v, fst (fst (exec o a1 w)) = Ok v.
+Proof. exact (observers_layout_free). Qed.
+Print Assumptions C13_observers_layout_free.
